@@ -2375,21 +2375,24 @@ DLLIMPORT int cfg_opt_setnstr(cfg_opt_t *opt, const char *value, unsigned int in
 		return CFG_FAIL;
 	}
 
-	val = cfg_opt_getval(opt, index);
-	if (!val)
+	/*
+	 * Copy first: the new value may be the option's own current
+	 * string, which cfg_opt_getval() releases with the defaults.
+	 */
+	newstr = value ? strdup(value) : NULL;
+	if (value && !newstr)
 		return CFG_FAIL;
+
+	val = cfg_opt_getval(opt, index);
+	if (!val) {
+		free(newstr);
+		return CFG_FAIL;
+	}
 
 	if (val->string)
 		oldstr = val->string;
 
-	if (value) {
-		newstr = strdup(value);
-		if (!newstr)
-			return CFG_FAIL;
-		val->string = newstr;
-	} else {
-		val->string = NULL;
-	}
+	val->string = newstr;
 
 	if (oldstr)
 		free(oldstr);
